@@ -11,6 +11,7 @@ DECIDED = ("R1 every value that can reach the move component of search_with's re
            "on board.turn() and the policies' COLOR constants match, so the colour assertion cannot fire; R4 every cycle of the deepening loop polls timeout.is_complete() on an edge "
            "that leaves the loop (no pass can complete without the limit being consulted); R5 the result is only returned from behind the deepening loop (no early exit that skips "
            "the search while legal moves may exist); R3 (no panic) is the C07 obligation set restricted to Engine::search's call tree and is reported there.")
+DECIDED = DECIDED + ' R90 premises re-run here: C14 C14.R2, C14.R5; C16 C16.R2; C03 C03.R4, C03.R6.'
 NOT_DECIDED = "termination of each pass as such (depends on the move generator being finite: C10) and 'returns a move whenever the first pass finished' beyond R5 (depends on scores)"
 EXPLANATION = "K2: reaching-definition closure (origins) of the returned move; loop/exit structure of the deepening loop; K4 table for the dispatch."
 
@@ -161,6 +162,16 @@ def _dispatch_swapped(P):
         t = blk["t"]
         if t["k"] == "switch" and len(t["tg"]) == 2:
             t["tg"][0][1], t["tg"][1][1] = t["tg"][1][1], t["tg"][0][1]
+
+
+@rule("C11.R90", 'premises shared with other properties: C14 (C14.R2, C14.R5); C16 (C16.R2); C03 (C03.R4, C03.R6)')
+def r_premises_shared(ctx):
+    """This property's argument rests on these rules of other properties (what it calls is assumed to behave); they are re-run here so that a
+    breakage of one of them is reported by this property's own check as well."""
+    from analysis.runner import premise
+    premise(ctx, 'C14', ['C14.R2', 'C14.R5'] and set(['C14.R2', 'C14.R5']), 'the root keeps a move only when the score order says it is better; the order is no longer the stated one')
+    premise(ctx, 'C16', ['C16.R2'] and set(['C16.R2']), 'the move the plugin hands out crosses the ABI encoding; an optional move no longer decodes to itself')
+    premise(ctx, 'C03', ['C03.R4', 'C03.R6'] and set(['C03.R4', 'C03.R6']), 'the search trusts the cached check information of the root; its from-scratch computation is no longer exact')
 
 
 CONTROLS = [
